@@ -37,6 +37,11 @@ def run(chk):
         chk.add_tlc(res3, "all token strings <=7 over {a [ ]}")
     s = core.run_harness(["defs", "replay", out], timeout=3000)
     chk.absorb(s, "defs")
+    # accepted definitions of the documented grammar (the pattern pool of C01): no lookup panics, whatever the method string
+    from . import c01
+    from .. import patterns as P
+    pool = P.read_pool(os.path.join(core.SPEC, "pools", "pool49.txt"))
+    c01.run_instance(chk, "pool-totality", pool, 4, 1, only={"lookup-panic", "registration-panic"})
     chk.extra["accepted_by_verdict"] = {k: v for k, v in s.get("info", {}).items()}
     os.remove(out)
     chk.exhaustive = True
